@@ -91,6 +91,8 @@ class C02(Sim):
             sp = S.example_spec(rng) or sp  # one of the 61 shipped engines
         n_ops = rng.randint(2, 10 if tier == "quick" else 16)
         maxrows = rng.choice([2, 4, 8, 16])
+        if rng.random() < (0.03 if tier == "quick" else 0.08):
+            maxrows = rng.choice([17, 31, 32, 33, 64, 129])  # occasional long batches (block sizes of vectorised loops)
         special = rng.choice([0.05, 0.2, 0.2, 0.5])
         ops = []
         for _ in range(n_ops):
